@@ -1,5 +1,28 @@
-From WR Require Import Lib.Bits Mpq.Archive Mpq.Rebuild Props.C07.
+From Coq Require Import NArith List Bool Arith.
+Import ListNotations.
+From WR Require Import Lib.Bits Mpq.Crypt Mpq.Archive Mpq.Rebuild Proofs.Rebuild_proofs Proofs.HashTable_proofs Proofs.Build_proofs Proofs.RebuildWhole_proofs Props.C07.
 Open Scope N_scope.
-Definition pin_1 : forall (decompress : N -> list N -> N -> option (list N)) a o n d,
+
+
+Definition pin_1 : forall (decompress : N -> list N -> N -> option (list N)) a o f,
+    In f (rebuild_specs decompress a o) ->
+    In (f_name f) (listed decompress a) /\ excluded a o (f_name f) = false /\
+    read_file decompress a (f_name f) = ROk (f_data f) := C07_rebuild_specs_sound.
+Definition pin_2 : forall (decompress : N -> list N -> N -> option (list N)) a o n d,
     In n (listed decompress a) -> excluded a o n = false -> read_file decompress a n = ROk d ->
     exists f, In f (rebuild_specs decompress a o) /\ f_name f = n /\ f_data f = d := C07_rebuild_specs_complete.
+Definition pin_3 : forall (decompress : N -> list N -> N -> option (list N)) a o n,
+    read_file decompress a n = RErr -> ~ exists f, In f (rebuild_specs decompress a o) /\ f_name f = n := C07_rebuild_unreadable_dropped.
+Definition pin_4 : forall (compress : N -> list N -> option (list N)) (decompress : N -> list N -> N -> option (list N))
+         (a : archive) (o : ropts) (bytes : list N),
+    let specs := rebuild_specs decompress a o in
+    let c := rebuild_cfg a o specs in
+    (c_version c = 1 \/ c_version c = 2) -> c_shift c < 65536 ->
+    build compress c specs = BOk bytes -> lenN bytes < M32 ->
+    Forall (file_ok compress decompress (sector_size (c_shift c))) (pending c specs) ->
+    NoDup (map hkey (pending c specs)) ->
+    exists a', open bytes = Some a' /\
+               forall n d, In n (listed decompress a) -> excluded a o n = false ->
+                           read_file decompress a n = ROk d -> read_file decompress a' n = ROk d := C07_rebuild_roundtrip.
+Definition pin_5 : forall (decompress : N -> list N -> N -> option (list N)) a n1 n2,
+    map norm n1 = map norm n2 -> read_file decompress a n1 = read_file decompress a n2 := C07_read_file_spelling.
